@@ -266,6 +266,14 @@ def analyse(unit, path, text, regions, res, canary_marks=None):
                         lab_line = s['line_start']
                         break
         region, repo_line = A.repo_line_of(regions, text, line, ps['column_start'])
+        if kind == 'postcondition':
+            # the failed clause may sit on a trait declaration: the function that failed it is where the body / exit span is
+            for s2 in spans:
+                if not s2.get('is_primary') and os.path.basename(s2['file_name']) == base and ('function body' in (s2.get('label') or '') or 'this exit' in (s2.get('label') or '')):
+                    r2, l2 = A.repo_line_of(regions, text, s2['line_start'], s2['column_start'])
+                    if r2 is not None and r2 is not region:
+                        region, repo_line = r2, l2
+                    break
         fn = region.key if region else enclosing_fn(lines, line)
         # where is the failed clause (for preconditions): in vstd / prelude => implicit panic site
         failed_clause_external = any((s.get('label') or '').startswith('failed') is False and False for s in spans)
